@@ -6,7 +6,7 @@ import random
 
 from ..sim import srv as sim
 from .pumpfam import PumpFamily, gen_pump_case
-from .srvfam import ConnFamily, gen_case, gen_orderly, get_loop, parse_model
+from .srvfam import ConnFamily, racy, gen_case, gen_orderly, get_loop, parse_model
 
 ID = "C04"
 READY = True
@@ -38,6 +38,7 @@ class Gate(ConnFamily):
         for i in range(n):
             c = gen_orderly(rng) if i % 2 == 0 else gen_case(rng)
             c["mw"] = True
+            make_racy = i % 3 == 0
             if rng.random() < 0.5:
                 # a valid request with a chosen peer and certificate, so that the chain's arguments can be checked
                 line = rng.choice(REQ_LINES)
@@ -47,6 +48,19 @@ class Gate(ConnFamily):
                 c["cert"] = rng.choice([None, 0, 1, 2, 3, 0, 3])
                 c["peer"] = rng.choice(["192.0.2.7", "2001:db8::5", "10.1.2.3"])
                 c["line"] = line.decode()
+            if "line" in c and c["line"].startswith("titan") and b"size=0" not in line and i % 2 == 1:
+                # the Titan request line first, a verdict racing with the read that completes the body
+                whole = line + b"\r\n" + content
+                cutp = rng.randint(len(line) + 2, len(whole) - 1)
+                verdict = rng.choice([["md!", "53 Access denied\r\n"], ["mr!"], ["mn!"], ["ma!"], ["md", "53 Access denied\r\n"], ["ma"]])
+                c["evs"] = [["d", whole[:cutp].hex()], verdict, ["d", whole[cutp:].hex()], rng.choice([["ma"], ["md", "61 no\r\n"], ["mr"]]),
+                            ["ua", [20, "text/gemini", None]]]
+                make_racy = False
+            if make_racy:
+                # a verdict (or a completion) and the read / disconnect that follows land in the same loop iteration
+                if "line" in c and rng.random() < 0.5:
+                    c["evs"].insert(rng.randint(1, len(c["evs"])), ["d", "5a5a"])
+                c = racy(rng, c)
             yield c
 
     def impl(self, case):
